@@ -17,7 +17,7 @@ RULE = ('named crystal pool (Bravais/multi-site, 2-D/3-D, one or several Wyckoff
 ASSUMPTIONS = ['real Green function: tolerance 1e-5 x |L0vv| (the property qualifies these identities by integration accuracy; '
                'observed <= 4e-7); a larger error is accepted only if it shrinks on denser k-meshes (NGFmax 8: not larger, 12: at most half) - '
                'seen on the 2-D displaced triangular lattice with anisotropic rates (1e-4)', 'torus Green function: 1e-9 x |L0vv| (1e-4 for crystals with origin states, see C01)',
-               'matrix inequalities with margin 1e-6 x |L0vv|']
+               'matrix inequalities with margin 1e-6 x |L0vv|; a violation at the default k-point density is decided by the same mesh-convergence rule (2-D displaced triangular lattice, Nthermo=2, rate ratio 900: lambda_min(Lss)/|L0vv| = -0.46 (NGFmax 4), -0.07 (8), +0.02 (12))']
 REQUIRED_OBS = {'eval:C06:real:Lsv=-L0vv': 20, 'eval:C06:real:L1vv=0': 20, 'eval:C06:stub:Lsv=-L0vv': 20,
                 'eval:C06:0<=Lss<=L0vv': 20, 'multi_wyckoff': 3, 'dim2': 3}
 CASE_TIMEOUT = 900
@@ -93,7 +93,17 @@ def run_case(case):
         hi = np.linalg.eigvalsh(0.5 * ((Lr[0] - Lr[1]) + (Lr[0] - Lr[1]).T)).min()
         mon.note_min('margin_Lss', lo / sc)
         mon.note_min('margin_L0vv-Lss', hi / sc)
-        mon.check(lo >= -1e-6 * sc and hi >= -1e-6 * sc, 'C06:0<=Lss<=L0vv',
+        okpsd = lo >= -1e-6 * sc and hi >= -1e-6 * sc
+        if not okpsd:
+            # same rule as for the identities: a violation of the bounds at the default k-point density is attributed to
+            # integration accuracy iff it shrinks on denser meshes
+            def psd_err(dd):
+                L = [np.array(x) for x in dd.Lij(*args)]
+                return max(0., -np.linalg.eigvalsh(0.5 * (L[1] + L[1].T)).min(),
+                           -np.linalg.eigvalsh(0.5 * ((L[0] - L[1]) + (L[0] - L[1]).T)).min()) / max(np.abs(L[0]).max(), 1e-300)
+            okpsd, ms = work_vac.resolved_by_denser_mesh(name, nth, psd_err, max(-lo, -hi) / sc)
+            mon.count('bounds_checked_by_mesh_convergence')
+        mon.check(okpsd, 'C06:0<=Lss<=L0vv',
                   lambda: 'lambda_min(Lss)=%.3e lambda_min(L0vv-Lss)=%.3e %s' % (lo, hi, desc), tags)
         # exact chain value of the tracer correlation
         L0c, Lssc, Lsvc, L1c = tor.predict(args)
